@@ -45,7 +45,8 @@ class CollectionValue(GenericValue):
             elements = self._ast_node.elts
 
         for old_value, old_node in zip(self._old_value, elements):
-            if old_value not in self._new_value:
+            # the value of the snapshot is the left operand, like in __contains__
+            if not any(old_value == new_value for new_value in self._new_value):
                 yield Delete(
                     flag="trim",
                     file=self._file,
